@@ -196,6 +196,17 @@ def hFuseOK : Handler := handler fun
   | [g, h, s, r] => do pure (SExp.ofBool (fuseOK (← lgraph? g) (← lgraph? h) (← objs? s) (← objs? r)))
   | _ => none
 
+/-- `(bw_leaf (names...) ((name k)|(ref k)|(other) ...) (numblocks-keys...))` -/
+def hBwLeaf : Handler := handler fun
+  | [names, idx, nb] => do
+    let idx ← (← idx.toList?).mapM fun
+      | .list [.sym "name", k] => do some (BwArg.name (← Obj.ofSExp? k))
+      | .list [.sym "ref", k] => do some (BwArg.ref (← Obj.ofSExp? k))
+      | .list [.sym "other"] => some BwArg.other
+      | _ => none
+    pure (SExp.ofBool (blockwiseLeaf (← objs? names) idx (← objs? nb)))
+  | _ => none
+
 def hExecGraph : Handler := handler fun
   | [g, cache] => do
     match executeGraph (← ngraph? g) (envOf (← lgraph? cache)) with
@@ -213,7 +224,7 @@ def table : List (String × Handler) :=
    ("exec_graph", TermDrv.hExecGraph), ("legacy_refs", TermDrv.hLegacyRefs), ("alias_init", TermDrv.hAliasInit),
    ("task_roundtrip", TermDrv.hTaskRoundtrip), ("container_roundtrip", TermDrv.hContainerRoundtrip),
    ("slots", TermDrv.hSlots),
-   ("subs", TermDrv.hSubs), ("cull", TermDrv.hCull), ("fuse_ok", TermDrv.hFuseOK),
+   ("subs", TermDrv.hSubs), ("cull", TermDrv.hCull), ("fuse_ok", TermDrv.hFuseOK), ("bw_leaf", TermDrv.hBwLeaf),
    ("clone_legacy", TermDrv.hCloneLegacy), ("clone_spec", TermDrv.hCloneSpec),
    ("checkpoint_reduce", TermDrv.hCheckpointReduce)]
 
